@@ -432,6 +432,8 @@ def _callable(I, args, kwargs):
 @lib("builtins.len")
 def _len(I, args, kwargs):
     v = args[0]
+    if isinstance(v, Opaque) and getattr(v, "length", None) is not None:
+        return v.length
     if isinstance(v, SList):
         return len(v.items)
     if isinstance(v, SDict):
